@@ -293,6 +293,27 @@ Definition fix_ambiguity_m (m : muri) (s : mstate) : bool * muri * mstate :=
     end
   else (true, m, s).
 
+(* uriFixAmbiguity as uriNormalizeSyntaxEngine uses it: the object owns its path texts there, so the "."
+   of the new segment is copied into a block of its own (uriMakeRangeOwner on that one range); when
+   the copy fails the node is released again and the path is as it was *)
+Definition fix_ambiguity_owned_m (m : muri) (s : mstate) : bool * muri * mstate :=
+  let need :=
+    match m_abs m, map sg_text (m_segs m) with
+    | true, [] :: _ :: _ => true
+    | false, [] :: [] :: _ => negb (m_host_set m)
+    | _, _ => false
+    end in
+  if need then
+    match alloc false SEG_SIZE s with
+    | (Some id, s1) =>
+      match alloc false (tlen [46] * csize) s1 with
+      | (Some b, s2) => (true, set_m_segs ({| sg_text := [46]; sg_blk := Some b; sg_node := id |} :: m_segs m) m, s2)
+      | (None, s2) => (false, m, free_blk id s2)
+      end
+    | (None, s1) => (false, m, s1)
+    end
+  else (true, m, s).
+
 (* uriFixEmptyTrailSegment *)
 Definition fix_empty_trail_m (m : muri) (s : mstate) : muri * mstate :=
   if negb (m_host_set m) then
@@ -407,7 +428,10 @@ Definition normalize_m (mask : N) (m : muri) (s : mstate) : N * muri * mstate :=
         | (false, m1, done1, s1) => (None, m1, done1, s1)
         | (true, m1, done1, s1) =>
           let '(ok, m2, s2) := remove_dot_segments_m relative (owner || negb (N.land done1 B_PATH =? 0)) m1 s1 in
-          if ok then let '(m3, s3) := fix_empty_trail_m m2 s2 in (Some (m3, done1), m3, done1, s3)
+          if ok then
+            let '(ok', m2', s2') := fix_ambiguity_owned_m m2 s2 in
+            if ok' then let '(m3, s3) := fix_empty_trail_m m2' s2' in (Some (m3, done1), m3, done1, s3)
+            else (None, m2', done1, s2')
           else (None, m2, done1, s2)
         end
       else (Some (m, done), m, done, s) in
